@@ -397,7 +397,7 @@ def run(chk):
         chk.leanchecker(MODULE)
     thorough = chk.tier == 'thorough'
     n_valid = 1500 if thorough else 150
-    n_mut = 200 if thorough else 20
+    n_mut = 120 if thorough else 20
     keep = 0.35 if thorough else 0.25
     stats = dict.fromkeys(STAT_KEYS, 0)
     model = chk.model_exe()
